@@ -118,8 +118,8 @@ SAFE_DOCS = ['has { brace ( paren [ bracket', 'closes } ) ] nothing', "uses 'sin
 # (tag, content) pairs drawn from SWIFT_KEYWORDS (core/src/language/swift.rs:24).  The programs are shared by the six languages, so the
 # pool keeps clear of what the OTHER back ends cannot print: Go uses the content key verbatim as a struct field name (`import interface{}`,
 # `default interface{}`: a content key that is a Go keyword gives an ill-formed Go file - a defect of the Go back end of the kind of
-# C10-go-keyword-name, observed while following fix 29 and reported, not part of any class yet), and Python declares both keys as
-# attributes of a class: no content key that is a Go keyword, no key that is a Python keyword.  The witness of fix 29 (`case` / `default`)
+# C10-go-keyword-name, observed while following fix 29 and reported, not part of any class yet), and Python declares both keys verbatim as
+# attributes of a class (`class: Literal[..]`, `in: int`: SyntaxError; likewise observed and reported): no content key that is a Go keyword, no key that is a Python keyword.  The witness of fix 29 (`case` / `default`)
 # is judged for Swift alone in WITNESSES.
 KEYWORD_KEYS = [('case', 'let'), ('default', 'self'), ('func', 'inout'), ('struct', 'init'), ('var', 'private'), ('switch', 'where'),
                 ('enum', 'static'), ('let', 'nil'), ('type', 'guard'), ('self', 'throws')]
